@@ -798,11 +798,13 @@ func (lc *leaderController) write(ctx context.Context, requestSupplier func(offs
 		cb.OnCompleteError(err)
 		return
 	}
+	// The offset is taken and the entry is appended to the wal within the same critical
+	// section: concurrent writers would otherwise reach the wal out of offset order
+	defer lc.Unlock()
 	newOffset := lc.quorumAckTracker.NextOffset()
 	walLog := lc.wal
 	tracker := lc.quorumAckTracker
 	term := lc.term
-	lc.Unlock()
 	request := requestSupplier(newOffset)
 
 	lc.log.Debug("Append operation", slog.Any("req", request))
